@@ -2,6 +2,7 @@
 //! properties: C06
 //! note: recognising which of the 2^48 commitments a confirmed transaction is: the obscured commitment number written into the sequence and locktime fields by CommitmentTransaction::build_inputs / make_transaction is read back exactly by ChannelMonitorImpl::check_spend_counterparty_transaction, for every commitment number and every obscuring factor
 //! trusted: R15 (deep slices): build_inputs (pubkeys, TxIn construction), make_transaction and check_spend_counterparty_transaction (the ~300 line claim builder) are outside the verifier; the unit extracts, on every run, the three expressions that carry the number - `obscured = factor ^ (INITIAL_COMMITMENT_NUMBER - n)` with the sequence field, the locktime field, and the decoding expression of the monitor - verbatim, as three functions; `commitment_tx.input[0].sequence.0` and `commitment_tx.lock_time.to_consensus_u32()` are read from a transaction skeleton {input: [TxIn{sequence: Sequence(u32)}], lock_time: LockTime(u32)}; everything else of the three functions is dropped and not claimed
+//! trusted: R15 (deep slice): the per-HTLC block of the revoked-commitment branch of check_spend_counterparty_transaction verbatim (consistency test, RevokedHTLCOutput::build, deadline choice, build_package, push); RevokedHTLCOutput::build and PackageTemplate::build_package are external_body constructors recording their arguments; keys, txid, amounts are opaque identities; the early `return` of the enclosing function becomes `return false`; the to_self output loop, key derivation and fail_unbroadcast_htlcs! are dropped and not claimed
 //! plemma: C06 lemma_commitment_number_roundtrip: decode(sequence(n, f), locktime(n, f), f) == n for all n < 2^48 and f < 2^48 (bit-vector proof over the extracted expressions' contracts)
 //! assume: commitment numbers and the obscuring factor are < 2^48 (INITIAL_COMMITMENT_NUMBER = 2^48 - 1; the monitor asserts factor <= 2^48 at construction)
 use vstd::prelude::*;
@@ -16,7 +17,11 @@ impl LockTime {
     pub fn from_consensus(n: u32) -> (r: LockTime) ensures r.0 == n { LockTime(n) }
     pub fn to_consensus_u32(&self) -> (r: u32) ensures r == self.0 { self.0 }
 }
-pub struct Transaction { pub input: Vec<TxIn>, pub lock_time: LockTime }
+#[derive(Clone, Copy)] pub struct Amount(pub u64);
+impl vstd::std_specs::cmp::PartialEqSpecImpl for Amount { open spec fn obeys_eq_spec() -> bool { true } open spec fn eq_spec(&self, other: &Amount) -> bool { self.0 == other.0 } }
+impl PartialEq for Amount { fn eq(&self, o: &Amount) -> (r: bool) { self.0 == o.0 } }
+pub struct TxOut { pub value: Amount }
+pub struct Transaction { pub input: Vec<TxIn>, pub lock_time: LockTime, pub output: Vec<TxOut> }
 pub struct MonitorSkeleton { pub commitment_transaction_number_obscure_factor: u64 }
 
 pub open spec fn obscured_of(n: u64, f: u64) -> u64 { f ^ ((0xffff_ffff_ffffu64 - n) as u64) }
@@ -102,5 +107,65 @@ pub proof fn lemma_commitment_number_roundtrip(n: u64, f: u64)
     assert((((((s as u64) & 0xffffffu64) << 24u64) | ((l as u64) & 0xffffffu64)) ^ f) == d) by (bit_vector)
         requires o < 0x1_0000_0000_0000u64, o == f ^ d, s == (0x80u32 << 24u32) | ((o >> 24u64) as u32), l == (0x20u32 << 24u32) | ((o & 0xffffffu64) as u32);
 }
+
+// ---- every HTLC output of a revoked commitment gets its justice claim (deep R15 slice of check_spend_counterparty_transaction) ----
+#[derive(Clone, Copy)] pub struct Txid(pub u64);
+#[derive(Clone, Copy)] pub struct PublicKey(pub u64);
+#[derive(Clone, Copy)] pub struct SecretKey(pub u64);
+pub struct ChannelTransactionParameters {}
+impl Clone for ChannelTransactionParameters { #[verifier::external_body] fn clone(&self) -> (r: Self) { unimplemented!() } }
+pub struct FundingScope { pub channel_parameters: ChannelTransactionParameters }
+pub struct HTLCOutputInCommitment { pub offered: bool, pub amount_msat: u64, pub cltv_expiry: u32, pub transaction_output_index: Option<u32> }
+impl Clone for HTLCOutputInCommitment { #[verifier::external_body] fn clone(&self) -> (r: Self) ensures r == *self { unimplemented!() } }
+impl HTLCOutputInCommitment {
+    #[verifier::external_body] pub fn to_bitcoin_amount(&self) -> (r: Amount) ensures r.0 == self.amount_msat / 1000 { unimplemented!() }
+}
+pub struct RevokedHTLCOutput { pub htlc: HTLCOutputInCommitment }
+impl RevokedHTLCOutput {
+    #[verifier::external_body] pub fn build(per_commitment_point: PublicKey, per_commitment_key: SecretKey, htlc: HTLCOutputInCommitment, channel_parameters: ChannelTransactionParameters, height: u32) -> (r: RevokedHTLCOutput)
+        ensures r.htlc == htlc { unimplemented!() }
+}
+pub enum PackageSolvingData { RevokedHTLCOutput(RevokedHTLCOutput), Other }
+// PackageTemplate::build_package (chain/package.rs) builds a one-input package for (txid, vout) with the given counterparty_spendable_height: recorded as is
+pub struct PackageTemplate { pub txid: Txid, pub vout: u32, pub data: PackageSolvingData, pub counterparty_spendable_height: u32 }
+impl PackageTemplate {
+    #[verifier::external_body] pub fn build_package(txid: Txid, vout: u32, input_solving_data: PackageSolvingData, counterparty_spendable_height: u32) -> (r: PackageTemplate)
+        ensures r.txid == txid, r.vout == vout, r.data == input_solving_data, r.counterparty_spendable_height == counterparty_spendable_height { unimplemented!() }
+}
+//@extract lightning/src/chain/channelmonitor.rs :: impl ChannelMonitorImpl :: fn check_spend_counterparty_transaction
+//@slice R15
+    for (htlc, _) in per_commitment_claimable_data { $body:any }
+//@with
+    // returns false where the source gives up on the whole transaction (stored HTLC data inconsistent with the confirmed transaction)
+    fn justice_claim_for_htlc(htlc: &HTLCOutputInCommitment, commitment_tx: &Transaction, commitment_txid: Txid, height: u32, per_commitment_point: PublicKey, per_commitment_key: SecretKey,
+        funding_spent: &FundingScope, claimable_outpoints: &mut Vec<PackageTemplate>) -> bool {
+        $body
+        true
+    }
+//@rw R5
+    return (claimable_outpoints, to_counterparty_output_info);
+//@with
+    return false;
+//@ret r
+//@ensures P C06 every-htlc-output-of-a-revoked-commitment-gets-exactly-one-justice-claim-on-its-own-output-with-the-right-deadline
+    r && htlc.transaction_output_index is Some ==> final(claimable_outpoints)@.len() == old(claimable_outpoints)@.len() + 1
+        && final(claimable_outpoints)@.drop_last() == old(claimable_outpoints)@
+        && ({ let p = final(claimable_outpoints)@.last();
+              p.txid == commitment_txid && p.vout == htlc.transaction_output_index->Some_0
+              && p.data == PackageSolvingData::RevokedHTLCOutput(RevokedHTLCOutput { htlc: *htlc })
+              && p.counterparty_spendable_height == (if htlc.offered { htlc.cltv_expiry } else { height }) })
+        && (htlc.transaction_output_index->Some_0 as int) < commitment_tx.output@.len()
+        && commitment_tx.output@[htlc.transaction_output_index->Some_0 as int].value.0 == htlc.amount_msat / 1000,
+    htlc.transaction_output_index is None ==> r && final(claimable_outpoints)@ == old(claimable_outpoints)@,
+    !r ==> final(claimable_outpoints)@ == old(claimable_outpoints)@,
+//@mutant received_htlc_claim_deadline_taken_from_its_expiry
+    let counterparty_spendable_height = if htlc.offered { htlc.cltv_expiry } else { height };
+//@with
+    let counterparty_spendable_height = htlc.cltv_expiry;
+//@mutant justice_claim_points_at_the_wrong_output
+    commitment_txid, transaction_output_index,
+//@with
+    commitment_txid, 0,
+//@end
 }
 fn main() {}
